@@ -29,13 +29,19 @@ pub struct Out {
     seen: HashSet<u64>,     // hashes of distinct non-trivial events
     pub samples: Vec<J>,
     pub mismatches: Vec<J>, // direction A only
+    pub classes: std::collections::BTreeMap<String, u64>, // events per op and outcome class (vacuity guard)
 }
 impl Out {
     pub fn new(path: &str) -> Self {
-        Out { w: BufWriter::new(std::fs::File::create(path).expect("create output")), events: 0, calls: 0, nontrivial: 0, seen: HashSet::new(), samples: vec![], mismatches: vec![] }
+        Out { w: BufWriter::new(std::fs::File::create(path).expect("create output")), events: 0, calls: 0, nontrivial: 0, seen: HashSet::new(), samples: vec![], mismatches: vec![], classes: Default::default() }
     }
     pub fn emit(&mut self, e: J, nontrivial: bool) {
         let line = serde_json::to_string(&e).unwrap();
+        if let Some(op) = e.get("op").and_then(|o| o.as_str()) {
+            let v = e.get("res").and_then(|r| r.get("v")).and_then(|v| v.as_str()).unwrap_or("-");
+            let api = e.get("api").and_then(|a| a.as_str()).unwrap_or("");
+            *self.classes.entry(format!("{}{}{}:{}", op, if api.is_empty() { "" } else { "/" }, api, v)).or_insert(0) += 1;
+        }
         if nontrivial {
             self.nontrivial += 1;
             let mut h = DefaultHasher::new();
@@ -54,7 +60,7 @@ impl Out {
     pub fn finish(mut self, path: &str, extra: J) {
         self.w.flush().unwrap();
         let stats = json!({"events": self.events, "calls": self.calls, "nontrivial": self.nontrivial, "distinct_nontrivial": self.seen.len(),
-                           "samples": self.samples, "mismatches": self.mismatches, "extra": extra});
+                           "samples": self.samples, "mismatches": self.mismatches, "classes": self.classes, "extra": extra});
         std::fs::write(format!("{}.stats.json", path), serde_json::to_string(&stats).unwrap()).unwrap();
     }
 }
